@@ -37,6 +37,8 @@ static const size_t ktotal[] = { offsetof(struct isal_mh_sha1_ctx, total_length)
 static const size_t kpbuf[] = { offsetof(struct isal_mh_sha1_ctx, partial_block_buffer), offsetof(struct isal_mh_sha256_ctx, partial_block_buffer),
                                 offsetof(struct isal_mh_sha1_murmur3_x64_128_ctx, partial_block_buffer) };
 static const char *kname[] = { "mh_sha1", "mh_sha256", "mh_sha1_murmur3_x64_128" };
+static const unsigned kalign[] = { (unsigned) _Alignof(struct isal_mh_sha1_ctx), (unsigned) _Alignof(struct isal_mh_sha256_ctx),
+                                  (unsigned) _Alignof(struct isal_mh_sha1_murmur3_x64_128_ctx) };
 static const size_t ksize[] = { sizeof(struct isal_mh_sha1_ctx), sizeof(struct isal_mh_sha256_ctx),
                                 sizeof(struct isal_mh_sha1_murmur3_x64_128_ctx) };
 
@@ -85,7 +87,7 @@ do_mhinit(const cmd *c)
                 s->f_upd = need("_%s_update_%s", k, s->fam);
                 s->f_fin = need("_%s_finalize_%s", k, s->fam);
         }
-        gbuf_alloc(&s->ctx, ksize[s->kind], PL_MID, 0);
+        gbuf_alloc_obj(&s->ctx, ksize[s->kind], kalign[s->kind]);
         hidden_fill(s->ctx.p, s->ctx.len, 51);
         obs o;
         uint64_t a[2] = { (uint64_t) s->ctx.p, seed };
@@ -230,7 +232,7 @@ do_rhinit(const cmd *c)
         void *f_init = need("%srolling_hash2_init", pre);
         s->f_reset = need("%srolling_hash2_reset", pre);
         s->f_run = need("%srolling_hash2_run", pre);
-        gbuf_alloc(&s->st, sizeof(struct isal_rh_state2), PL_MID, 0);
+        gbuf_alloc_obj(&s->st, sizeof(struct isal_rh_state2), (unsigned) _Alignof(struct isal_rh_state2));
         hidden_fill(s->st.p, s->st.len, 61);
         obs o;
         uint64_t a[2] = { (uint64_t) s->st.p, w };
@@ -358,27 +360,50 @@ static void
 do_rhmask(const cmd *c)
 {
         uint32_t mean = (uint32_t) cmd_i(c, 1), shift = (uint32_t) cmd_i(c, 2);
-        gbuf m;
-        gbuf_alloc(&m, 4, PL_END, 0);
+        int only_legacy = c->n > 3 && !strcmp(c->t[3], "legacy"); /* FIPS-build pass: the isal_ spelling refuses there */
         obs o;
-        uint64_t a[3] = { mean, shift, (uint64_t) m.p };
-        vc_begin();
-        vc_output("mask", &m);
-        uint64_t r = vcall(need("isal_rolling_hashx_mask_gen"), 3, a, &o);
-        ev_begin("RhMask");
-        ev_int("mean", mean & 0x7fffffff);
-        ev_int("shift", shift);
-        ev_int("rc", (long long) (int) r);
-        ev_hex("mask", m.p, 4);
-        ev_obs(&o);
-        ev_end();
-        gbuf_free(&m);
+        if (!only_legacy) {
+                gbuf m;
+                gbuf_alloc(&m, 4, PL_END, 0);
+                uint64_t a[3] = { mean, shift, (uint64_t) m.p };
+                vc_begin();
+                vc_output("mask", &m);
+                uint64_t r = vcall(need("isal_rolling_hashx_mask_gen"), 3, a, &o);
+                ev_begin("RhMask");
+                ev_int("mean", mean & 0x7fffffff);
+                ev_int("shift", shift);
+                ev_int("rc", (long long) (int) r);
+                ev_hex("mask", m.p, 4);
+                ev_obs(&o);
+                ev_end();
+                gbuf_free(&m);
+        }
+        if (shift < 32) { /* the deprecated spelling: uint32_t rolling_hashx_mask_gen(long mean, int shift) */
+                uint64_t b[2] = { mean, shift };
+                vc_begin();
+                uint32_t rv = (uint32_t) vcall(need("rolling_hashx_mask_gen"), 2, b, &o);
+                ev_begin("RhMask");
+                ev_int("mean", mean & 0x7fffffff);
+                ev_int("shift", shift);
+                ev_int("rc", 0);
+                ev_hex("mask", &rv, 4);
+                ev_obs(&o);
+                ev_end();
+        }
 }
 
 int
 mh_cmd(const cmd *c)
 {
-        if (!strcmp(c->t[0], "mhinit"))
+        if (!strcmp(c->t[0], "mhmove")) { /* the caller relocates a live multi-hash context */
+                struct mhs *m = &ms[(int) cmd_i(c, 1)];
+                if (m->used)
+                        gbuf_move_obj(&m->ctx, kalign[m->kind]);
+        } else if (!strcmp(c->t[0], "rhmove")) {
+                struct rhs *r = &rs[(int) cmd_i(c, 1)];
+                if (r->used)
+                        gbuf_move_obj(&r->st, (unsigned) _Alignof(struct isal_rh_state2));
+        } else if (!strcmp(c->t[0], "mhinit"))
                 do_mhinit(c);
         else if (!strcmp(c->t[0], "mhupd"))
                 do_mhupd(c);
